@@ -382,11 +382,16 @@ pub fn compare_roundtrip(f: &Forest, roots: &[u64], dom: &WeakDom) -> Vec<Findin
             forest::value_with_labels(&v2)
         };
         let mut returned_under: BTreeSet<String> = BTreeSet::new();
+        let renamed_to: BTreeSet<String> = e.values.keys().filter(|c| e.info[*c].1 != **c).map(|c| e.info[c].1.clone()).collect();
         for (canon, ev) in &e.values {
             let readback = &e.info[canon].1;
             returned_under.insert(readback.clone());
             if readback != canon {
                 out.push(Finding { key: "canonical-name-changes".into(), text: format!("node {l} {}.{canon}: its serialized name is read back as the canonical property {readback}", n.class) });
+                continue;
+            }
+            if renamed_to.contains(canon) {
+                continue; // another property of this instance is returned under this name
             }
             match y.properties.get(&readback.as_str().into()) {
                 None => out.push(Finding { key: format!("missing-{}", key_of(ev)), text: format!("node {l} {}.{canon}: written {}, absent after reading back", n.class, cut(&show_exp(ev))) }),
@@ -582,6 +587,8 @@ pub fn c07(id: &str, f: &Forest, r: &[(CompressionType, Enc)], out: &mut Vec<Str
                                 "content"
                             } else if wher.starts_with("PROP xmlRead_") {
                                 "renamed"
+                            } else if wher.starts_with("PROP AttributesSerialize") {
+                                "attributes"
                             } else {
                                 "other"
                             };
